@@ -24,6 +24,16 @@ class Spec:
         return {"cols": self.cols, "sep": self.sep, "trailing": self.trailing, "style": self.style,
                 "quoted": self.quoted, "repeated": self.repeated, "attrs": self.attrs, "extra": self.extra}
 
+    @staticmethod
+    def from_dict(d):
+        """inverse of as_dict (also after a JSON round trip, which turns the (key, values) pairs into lists)"""
+        s = Spec()
+        s.mode = d.get("mode", "file")
+        s.cols, s.sep, s.trailing, s.style = list(d["cols"]), d["sep"], d["trailing"], d["style"]
+        s.quoted, s.repeated, s.extra = d["quoted"], d["repeated"], list(d["extra"])
+        s.attrs = [(k, list(v)) for k, v in d["attrs"]]
+        return s
+
 
 class _Items:
     """ordered list of (key, vals) rendered like a dict by enc_attrs but allowing duplicate keys"""
